@@ -189,29 +189,3 @@ Fixpoint wf_steps (R : qrep) (st : cstate) (steps : list step) : bool :=
 
 Fixpoint ops_of (steps : list step) : list qop :=
   match steps with [] => [] | SQ o :: t => o :: ops_of t | SA _ :: t => ops_of t end.
-
-(* ---------- what the harness compares (outputs mode) ---------- *)
-(* sample values: 0 = silence, 1 + key + 64 * idx = sample idx of stimulus key (key < 64) *)
-Definition val64 (s : osample) : Z := match s with OZero => 0 | OWave k i => 1 + k + 64 * i end.
-
-Definition enc_fout (o : fout) : list Z :=
-  match o with
-  | FErr EDuplicate => [1]
-  | FErr EStack => [2]
-  | FOut b _ =>
-    [0; zlen b] ++ flat_map (fun it => [i_rid it; i_s0 it; if i_missed it then 1 else 0; zlen (i_data it)]
-                                        ++ i_data it) b
-  end.
-
-(* [1; |P|; P...; #live; (k, t0)...; #sends; per send: enc_fout] or [0] when the queue raised *)
-Definition c06_run (p : policy) (es : list entry) (ch : list Z) (pm : list (list Z))
-           (B n pre : Z) (steps : list step) : list Z :=
-  let X := {| x_val := val64; x_K := zlen es; x_n := n; x_pre := pre |} in
-  match run_steps all_rep X (cinit (qinit p es ch pm)) steps with
-  | None => [0]
-  | Some (st, fs) =>
-    let outs := run B (mkkind false false) fs in
-    [1; zlen (s_P st)] ++ map val64 (s_P st)
-    ++ [zlen (live_of (s_q st))] ++ flat_map (fun kt => [fst kt; snd kt]) (live_of (s_q st))
-    ++ [zlen outs] ++ flat_map enc_fout outs
-  end.
